@@ -194,15 +194,13 @@ func vrfC10ServerScript(h *vrfSrv, rng *rand.Rand, d *vrfC10Desc) {
 		d.note("open s=%d content-length=%d", id, cl)
 		return st
 	}
-	// sendData sends up to k DATA frames on st inside the peer's windows. On a stream the peer
-	// has closed (or never opened) only the connection window applies.
+	// sendData sends up to k DATA frames on st inside the peer's windows. The stream window the
+	// peer was given is respected even after the stream has been closed or reset (the
+	// implementation may still apply it to frames that cross its own clean-up).
 	sendData := func(st *vrfSrvStream, k int, allowEnd bool) (sentFC int64) {
 		for i := 0; i < k; i++ {
 			conn, sw, mf := h.view(st.id)
-			limit := min(conn, mf)
-			if !st.cliEnded && !st.cliRST && st.app != nil {
-				limit = min(limit, sw)
-			}
+			limit := min(conn, sw, mf)
 			n := vsrvPick(rng, 0, 1, 1+rng.IntN(100), 1+rng.IntN(5000), 4096, 1+rng.IntN(20000), int(mf))
 			pad := vrfPadding(rng)
 			if st.cl >= 0 && st.taint != "beyond-content-length" {
@@ -624,10 +622,7 @@ func vrfC10ClientScript(h *vrfCli, rng *rand.Rand, d *vrfC10Desc) {
 		var out []byte
 		for i := 0; i < k; i++ {
 			conn, sw, mf := h.view(rq.id)
-			limit := min(conn, mf)
-			if !rq.srvEnded && !rq.srvRST {
-				limit = min(limit, sw)
-			}
+			limit := min(conn, sw, mf)
 			n := vsrvPick(rng, 0, 1, 1+rng.IntN(100), 1+rng.IntN(5000), 4096, 1+rng.IntN(20000), int(mf))
 			pad := vrfPadding(rng)
 			if rq.cl >= 0 && rq.taint != "beyond-content-length" {
